@@ -212,7 +212,9 @@ def real_crosscheck(sim, st, spec, obs, stdout=False):
             problems.append("exit statuses sim=%r real=%r" % (ea, eb))
         elif stdout and [o.get("out", "") for o in a] != [o.get("out", "") for o in b]:
             problems.append("stdout differs")
-    if obs["files"] != robs["files"]:
+    failed = any("exc" in o or o["ok"].get("exit") != 0
+                 for s in spec["sessions"] for o in obs["sessions"].get(s.get("id", "s0"), []))
+    if obs["files"] != robs["files"] and not failed:
         problems.append("files differ: %r" % sorted(
             p for p in set(obs["files"]) | set(robs["files"])
             if obs["files"].get(p) != robs["files"].get(p))[:5])
